@@ -1,167 +1,124 @@
 import RV.C07.Lemmas
 /-
-  C07 helper lemmas, part 2: `_quote_encode` followed by `decodeUnicodeEscape` is the identity.
+  C07 helper lemmas, part 2: `_quote_encode` followed by `decodeUnicodeEscape` is the identity,
+  for EVERY table of written forms that is well-formed.
 
-  `Spell e l` : the encoded text `e` is a spelling of `l` made of the tokens
-  `\\` (backslash), `\"` (quote), `\r` (CR) and single characters other than a backslash.
-  Every step of `_quote_encode` keeps the text a spelling of the lexical form, and the decoder
-  reads any spelling back.
+  The way `_quote_encode` writes each character is not fixed in the model: it is read from tables probed from the
+  live function.  `wfTab T` (decidable, checked on the regenerated tables by `decide`) says what the property needs
+  of such a table: every written form is a token the decoder reads back to that character without touching what follows
+  (the character itself if it is not a backslash, or a backslash and an ECHAR letter of `compat._string_escape_map`),
+  in particular the backslash is never written raw.  `Spell e l` : the text `e` is a sequence of such tokens for `l`.
 -/
 namespace RV.C07
 
-/-- spellings without escaped quotes / CR: doubled backslashes and plain characters -/
-inductive Spell0 : Str → Str → Prop
-  | nil : Spell0 [] []
-  | bs {e l} : Spell0 e l → Spell0 ('\\' :: '\\' :: e) ('\\' :: l)
-  | plain {e l} (c : Char) : c ≠ '\\' → Spell0 e l → Spell0 (c :: e) (c :: l)
+/-- `t` is a token the decoder reads as `c`, whatever follows -/
+def tokOk (c : Char) : Str → Bool
+  | [x] => decide (x = c) && decide (c ≠ '\\')
+  | ['\\', k] => decide (alookup k Tables.stringEscapeMap = some c)
+  | _ => false
+
+/-- what the property needs of a table of written forms -/
+def wfTab (T : List (Char × Str)) : Bool :=
+  T.all (fun p => tokOk p.1 (escWith T p.1)) && tokOk '\\' (escWith T '\\')
 
 inductive Spell : Str → Str → Prop
   | nil : Spell [] []
-  | bs {e l} : Spell e l → Spell ('\\' :: '\\' :: e) ('\\' :: l)
-  | quote {e l} : Spell e l → Spell ('\\' :: '"' :: e) ('"' :: l)
-  | cr {e l} : Spell e l → Spell ('\\' :: 'r' :: e) ('\r' :: l)
+  | esc {e l} (k c : Char) : alookup k Tables.stringEscapeMap = some c → Spell e l → Spell ('\\' :: k :: e) (c :: l)
   | plain {e l} (c : Char) : c ≠ '\\' → Spell e l → Spell (c :: e) (c :: l)
-
-theorem Spell0.toSpell {e l : Str} (h : Spell0 e l) : Spell e l := by
-  induction h with
-  | nil => exact .nil
-  | bs _ ih => exact .bs ih
-  | plain c hc _ ih => exact .plain c hc ih
 
 theorem Spell.append {e₁ l₁ e₂ l₂ : Str} (h₁ : Spell e₁ l₁) (h₂ : Spell e₂ l₂) : Spell (e₁ ++ e₂) (l₁ ++ l₂) := by
   induction h₁ with
   | nil => exact h₂
-  | bs _ ih => exact .bs ih
-  | quote _ ih => exact .quote ih
-  | cr _ ih => exact .cr ih
+  | esc k c hk _ ih => exact .esc k c hk ih
   | plain c hc _ ih => exact .plain c hc ih
 
-/-! ### `str.replace` of one character -/
+theorem spell_tok {c : Char} {t e l : Str} (h : tokOk c t = true) (hs : Spell e l) : Spell (t ++ e) (c :: l) := by
+  match t, h with
+  | [x], h =>
+    simp only [tokOk, Bool.and_eq_true, decide_eq_true_eq] at h
+    obtain ⟨rfl, hc⟩ := h
+    exact .plain x hc hs
+  | [a, k], h =>
+    by_cases ha : a = '\\'
+    · subst ha
+      simp only [tokOk, decide_eq_true_eq] at h
+      exact .esc k c h hs
+    · exfalso
+      unfold tokOk at h
+      split at h
+      · next heq => simp at heq
+      · next heq => simp at heq; exact ha heq.1
+      · cases h
+  | [], h => simp [tokOk] at h
+  | _ :: _ :: _ :: _, h => simp [tokOk] at h
 
-@[simp] theorem replaceChar_nil (c : Char) (rep : Str) : replaceChar c rep [] = [] := rfl
+theorem tokOk_head {c : Char} {t : Str} (h : tokOk c t = true) : t.head? = some c ∨ t.head? = some '\\' := by
+  match t, h with
+  | [x], h =>
+    simp only [tokOk, Bool.and_eq_true, decide_eq_true_eq] at h
+    exact Or.inl (by simp [h.1])
+  | [a, k], h =>
+    by_cases ha : a = '\\'
+    · subst ha; exact Or.inr rfl
+    · exfalso
+      unfold tokOk at h
+      split at h
+      · next heq => simp at heq
+      · next heq => simp at heq; exact ha heq.1
+      · cases h
+  | [], h => simp [tokOk] at h
+  | _ :: _ :: _ :: _, h => simp [tokOk] at h
 
-theorem replaceChar_cons (c : Char) (rep : Str) (x : Char) (s : Str) :
-    replaceChar c rep (x :: s) = (if x = c then rep else [x]) ++ replaceChar c rep s := by
-  simp [replaceChar, List.flatMap_cons]
+theorem alookupS_some_mem {c : Char} {e : Str} : ∀ {T : List (Char × Str)}, alookupS c T = some e → ∃ p ∈ T, p.1 = c
+  | [], h => by simp [alookupS] at h
+  | (a, b) :: r, h => by
+    simp only [alookupS] at h
+    split at h
+    · next ha => exact ⟨(a, b), List.mem_cons_self, ha⟩
+    · obtain ⟨p, hp, hc⟩ := alookupS_some_mem h
+      exact ⟨p, List.mem_cons_of_mem _ hp, hc⟩
 
-theorem replaceChar_not_mem (c : Char) (rep : Str) : ∀ s : Str, c ∉ s → replaceChar c rep s = s
-  | [], _ => rfl
-  | x :: s, h => by
-    have hx : x ≠ c := fun e => h (by simp [e])
-    have hs : c ∉ s := fun e => h (List.mem_cons_of_mem _ e)
-    rw [replaceChar_cons, if_neg hx, replaceChar_not_mem c rep s hs]
-    rfl
+/-- in a well-formed table every character (in the table or not) has a written form that is a token for it -/
+theorem tokOk_escWith {T : List (Char × Str)} (hT : wfTab T = true) (c : Char) : tokOk c (escWith T c) = true := by
+  simp only [wfTab, Bool.and_eq_true, List.all_eq_true] at hT
+  obtain ⟨hall, hbs⟩ := hT
+  cases hl : alookupS c T with
+  | some e =>
+    obtain ⟨p, hp, hc⟩ := alookupS_some_mem hl
+    have := hall p hp
+    rw [hc] at this
+    exact this
+  | none =>
+    have he : escWith T c = [c] := by simp [escWith, hl]
+    rw [he]
+    by_cases hc : c = '\\'
+    · subst hc
+      rw [he] at hbs
+      simp [tokOk] at hbs
+    · simp [tokOk, hc]
 
-/-- `.replace("\\", "\\\\")` -/
-theorem spell0_dbl : ∀ s : Str, Spell0 (replaceChar '\\' ['\\', '\\'] s) s
+/-- the short-quoted branch spells the lexical form -/
+theorem spell_shortEncodeT {T : List (Char × Str)} (hT : wfTab T = true) : ∀ s : Str, Spell (shortEncodeT T s) s
   | [] => .nil
-  | x :: s => by
-    rw [replaceChar_cons]
-    by_cases h : x = '\\'
-    · subst h; simpa using Spell0.bs (spell0_dbl s)
-    · simpa [h] using Spell0.plain x h (spell0_dbl s)
+  | c :: s => by
+    have ih := spell_shortEncodeT hT s
+    simp only [shortEncodeT, List.flatMap_cons] at ih ⊢
+    exact spell_tok (tokOk_escWith hT c) ih
 
-/-- `.replace('"', '\\"')` after the backslashes were doubled -/
-theorem spell_replQ {e l : Str} (h : Spell0 e l) : Spell (replaceChar '"' ['\\', '"'] e) l := by
-  induction h with
-  | nil => exact .nil
-  | bs _ ih =>
-    rw [replaceChar_cons, replaceChar_cons]
-    simpa using Spell.bs ih
-  | plain c hc _ ih =>
-    rw [replaceChar_cons]
-    by_cases hq : c = '"'
-    · subst hq; simpa using Spell.quote ih
-    · simpa [hq] using Spell.plain c hc ih
+theorem alookup_q : alookup '"' Tables.stringEscapeMap = some '"' := by decide
 
-/-- `.replace("\r", "\\r")` -/
-theorem spell_replCR {e l : Str} (h : Spell e l) : Spell (replaceChar '\r' ['\\', 'r'] e) l := by
-  induction h with
-  | nil => exact .nil
-  | bs _ ih =>
-    rw [replaceChar_cons, replaceChar_cons]
-    simpa using Spell.bs ih
-  | quote _ ih =>
-    rw [replaceChar_cons, replaceChar_cons]
-    simpa using Spell.quote ih
-  | cr _ ih =>
-    rw [replaceChar_cons, replaceChar_cons]
-    simpa using Spell.cr ih
-  | plain c hc _ ih =>
-    rw [replaceChar_cons]
-    by_cases hq : c = '\r'
-    · subst hq; simpa using Spell.cr ih
-    · simpa [hq] using Spell.plain c hc ih
-
-/-- the short-quoted branch spells the lexical form (it has no newline) -/
-theorem spell_shortEncode (s : Str) (h : '\n' ∉ s) : Spell (shortEncode s) s := by
-  unfold shortEncode
-  rw [replaceChar_not_mem _ _ s h]
-  exact spell_replCR (spell_replQ (spell0_dbl s))
-
-/-! ### the long-quoted branch -/
-
-theorem replTriple_cons_ne (c : Char) (s : Str) (h : c ≠ '"') : replTriple (c :: s) = c :: replTriple s := by
-  rw [replTriple]
-  intro s' hc; exact absurd hc h
-
-theorem replTriple_q_nil : replTriple ['"'] = ['"'] := by decide
-
-theorem replTriple_q_ne (c : Char) (s : Str) (h : c ≠ '"') : replTriple ('"' :: c :: s) = '"' :: replTriple (c :: s) := by
-  rw [replTriple]
-  intro s' _ hs; injection hs with h1 _; exact h h1
-
-theorem replTriple_qq_nil : replTriple ['"', '"'] = ['"', '"'] := by decide
-
-theorem replTriple_qq_ne (c : Char) (s : Str) (h : c ≠ '"') :
-    replTriple ('"' :: '"' :: c :: s) = '"' :: '"' :: replTriple (c :: s) := by
-  rw [replTriple]
-  · rw [replTriple]
-    intro s' _ hs; injection hs with h1 _; exact h h1
-  · intro s' _ hs; injection hs with _ h2; injection h2 with h3 _; exact h h3
-
-/-- `.replace('"""', '\\"\\"\\"')` after the backslashes were doubled -/
-theorem spell_replTriple_aux : ∀ (n : Nat) (e l : Str), e.length ≤ n → Spell0 e l → Spell (replTriple e) l
-  | 0, e, l, hn, h => by
-    have : e = [] := List.eq_nil_of_length_eq_zero (Nat.le_zero.mp hn)
-    subst this; cases h; exact .nil
-  | n + 1, e, l, hn, h => by
-    cases h with
-    | nil => exact .nil
-    | @bs e1 l1 h1 =>
-      rw [replTriple_cons_ne _ _ (by decide), replTriple_cons_ne _ _ (by decide)]
-      exact .bs (spell_replTriple_aux n e1 l1 (by simp at hn; omega) h1)
-    | @plain e1 l1 c hc h1 =>
-      have len1 : e1.length ≤ n := by simp at hn; omega
-      by_cases hq : c = '"'
-      · subst hq
-        cases h1 with
-        | nil => rw [replTriple_q_nil]; exact .plain _ hc .nil
-        | @bs e2 l2 h2 =>
-          rw [replTriple_q_ne _ _ (by decide)]
-          exact .plain _ hc (spell_replTriple_aux n _ _ len1 (.bs h2))
-        | @plain e2 l2 c2 hc2 h2 =>
-          by_cases hq2 : c2 = '"'
-          · subst hq2
-            cases h2 with
-            | nil => rw [replTriple_qq_nil]; exact .plain _ hc (.plain _ hc .nil)
-            | @bs e3 l3 h3 =>
-              rw [replTriple_qq_ne _ _ (by decide)]
-              exact .plain _ hc (.plain _ hc (spell_replTriple_aux n _ _ (by simp at len1 ⊢; omega) (.bs h3)))
-            | @plain e3 l3 c3 hc3 h3 =>
-              by_cases hq3 : c3 = '"'
-              · subst hq3
-                rw [replTriple]
-                exact .quote (.quote (.quote (spell_replTriple_aux n e3 l3 (by simp at len1; omega) h3)))
-              · rw [replTriple_qq_ne _ _ hq3]
-                exact .plain _ hc (.plain _ hc (spell_replTriple_aux n _ _ (by simp at len1 ⊢; omega) (.plain c3 hc3 h3)))
-          · rw [replTriple_q_ne _ _ hq2]
-            exact .plain _ hc (spell_replTriple_aux n _ _ len1 (.plain c2 hc2 h2))
-      · rw [replTriple_cons_ne _ _ hq]
-        exact .plain c hc (spell_replTriple_aux n e1 l1 len1 h1)
-
-theorem spell_replTriple {e l : Str} (h : Spell0 e l) : Spell (replTriple e) l :=
-  spell_replTriple_aux e.length e l (Nat.le_refl _) h
+/-- the long-quoted branch before the final-quote step spells the lexical form -/
+theorem spell_encT {T : List (Char × Str)} (hT : wfTab T = true) : ∀ s : Str, Spell (encT T s) s := by
+  intro s
+  induction s using encT.induct with
+  | case1 s ih =>
+    rw [encT]
+    exact .esc '"' '"' alookup_q (.esc '"' '"' alookup_q (.esc '"' '"' alookup_q ih))
+  | case2 c s hnot ih =>
+    rw [encT]
+    · exact spell_tok (tokOk_escWith hT c) ih
+    · exact hnot
+  | case3 => exact .nil
 
 /-! ### the trailing-quote step -/
 
@@ -219,19 +176,7 @@ theorem spell_final_quote : ∀ {e lex : Str}, Spell e lex → ∀ body : Str, e
   intro e lex h
   induction h with
   | nil => intro body hb; cases body <;> simp at hb
-  | @bs e1 l1 h1 ih =>
-    intro body hb hpar
-    match body, hb with
-    | [], hb => simp at hb
-    | [x], hb => simp at hb
-    | x :: y :: b1, hb =>
-      simp only [List.cons_append, List.cons.injEq] at hb
-      obtain ⟨hx, hy, he⟩ := hb
-      subst hx hy
-      rw [trailBs_bs_bs] at hpar
-      obtain ⟨l', hl, hs⟩ := ih b1 he hpar
-      exact ⟨'\\' :: l', by simp [hl], .bs hs⟩
-  | @quote e1 l1 h1 ih =>
+  | @esc e1 l1 k c hk h1 ih =>
     intro body hb hpar
     match body, hb with
     | [], hb => simp at hb
@@ -245,21 +190,14 @@ theorem spell_final_quote : ∀ {e lex : Str}, Spell e lex → ∀ body : Str, e
       simp only [List.cons_append, List.cons.injEq] at hb
       obtain ⟨hx, hy, he⟩ := hb
       subst hx hy
-      rw [trailBs_bs_ne _ _ (by decide)] at hpar
-      obtain ⟨l', hl, hs⟩ := ih b1 he hpar
-      exact ⟨'"' :: l', by simp [hl], .quote hs⟩
-  | @cr e1 l1 h1 ih =>
-    intro body hb hpar
-    match body, hb with
-    | [], hb => simp at hb
-    | [x], hb => simp at hb
-    | x :: y :: b1, hb =>
-      simp only [List.cons_append, List.cons.injEq] at hb
-      obtain ⟨hx, hy, he⟩ := hb
-      subst hx hy
-      rw [trailBs_bs_ne _ _ (by decide)] at hpar
-      obtain ⟨l', hl, hs⟩ := ih b1 he hpar
-      exact ⟨'\r' :: l', by simp [hl], .cr hs⟩
+      by_cases hkb : k = '\\'
+      · subst hkb
+        rw [trailBs_bs_bs] at hpar
+        obtain ⟨l', hl, hs⟩ := ih b1 he hpar
+        exact ⟨c :: l', by simp [hl], .esc _ c hk hs⟩
+      · rw [trailBs_bs_ne _ _ hkb] at hpar
+        obtain ⟨l', hl, hs⟩ := ih b1 he hpar
+        exact ⟨c :: l', by simp [hl], .esc _ c hk hs⟩
   | @plain e1 l1 c hc h1 ih =>
     intro body hb hpar
     match body, hb with
@@ -289,25 +227,15 @@ theorem spell_fixTrail {e l : Str} (h : Spell e l) : Spell (fixTrail e) l := by
         rw [hys, List.dropLast_concat]
       obtain ⟨l', hl, hs⟩ := spell_final_quote h e.dropLast he hpar
       subst hl
-      exact hs.append (.quote .nil)
+      exact hs.append (.esc '"' '"' alookup_q .nil)
     · exact h
   · exact h
 
 /-- the long-quoted branch spells the lexical form -/
-theorem spell_longEncode (s : Str) : Spell (longEncode s) s := by
-  unfold longEncode
-  simp only
-  apply spell_replCR
-  apply spell_fixTrail
-  split
-  · exact spell_replTriple (spell0_dbl s)
-  · exact (spell0_dbl s).toSpell
+theorem spell_longEncodeT {T : List (Char × Str)} (hT : wfTab T = true) (s : Str) : Spell (longEncodeT T s) s :=
+  spell_fixTrail (spell_encT hT s)
 
 /-! ### the decoder reads every spelling back -/
-
-theorem alookup_bs : alookup '\\' Tables.stringEscapeMap = some '\\' := by decide
-theorem alookup_q : alookup '"' Tables.stringEscapeMap = some '"' := by decide
-theorem alookup_r : alookup 'r' Tables.stringEscapeMap = some '\r' := by decide
 
 theorem decodeF_esc (n : Nat) (c r : Char) (s : Str) (h : alookup c Tables.stringEscapeMap = some r) :
     decodeF (n + 1) ('\\' :: c :: s) = (decodeF n s).map (r :: ·) := by
@@ -324,29 +252,45 @@ theorem decodeF_nil (n : Nat) : decodeF n [] = some [] := by
 theorem decode_spell {e l : Str} (h : Spell e l) : ∀ n : Nat, e.length ≤ n → decodeF n e = some l := by
   induction h with
   | nil => intro n _; exact decodeF_nil n
-  | bs _ ih =>
+  | esc k c hk _ ih =>
     intro n hn
     match n, hn with
-    | m + 1, hn => rw [decodeF_esc m _ _ _ alookup_bs, ih m (by simp at hn; omega)]; rfl
-  | quote _ ih =>
-    intro n hn
-    match n, hn with
-    | m + 1, hn => rw [decodeF_esc m _ _ _ alookup_q, ih m (by simp at hn; omega)]; rfl
-  | cr _ ih =>
-    intro n hn
-    match n, hn with
-    | m + 1, hn => rw [decodeF_esc m _ _ _ alookup_r, ih m (by simp at hn; omega)]; rfl
+    | m + 1, hn => rw [decodeF_esc m _ _ _ hk, ih m (by simp at hn; omega)]; rfl
   | plain c hc _ ih =>
     intro n hn
     match n, hn with
     | m + 1, hn => rw [decodeF_plain m c _ hc, ih m (by simp at hn; omega)]; rfl
 
-/-- ⊢ the string-escape round trip: decoding what `_quote_encode` wrote (without the quotes)
-    gives back the lexical form, for every string -/
-theorem decode_shortEncode (s : Str) (h : '\n' ∉ s) : decodeEsc (shortEncode s) = some s :=
-  decode_spell (spell_shortEncode s h) _ (Nat.le_refl _)
+/-- ⊢ the string-escape round trip, for ANY well-formed table of written forms: decoding what `_quote_encode`
+    wrote (without the surrounding quotes) gives back the lexical form, for every string -/
+theorem decode_shortEncodeT {T : List (Char × Str)} (hT : wfTab T = true) (s : Str) :
+    decodeEsc (shortEncodeT T s) = some s :=
+  decode_spell (spell_shortEncodeT hT s) _ (Nat.le_refl _)
 
-theorem decode_longEncode (s : Str) : decodeEsc (longEncode s) = some s :=
-  decode_spell (spell_longEncode s) _ (Nat.le_refl _)
+theorem decode_longEncodeT {T : List (Char × Str)} (hT : wfTab T = true) (s : Str) :
+    decodeEsc (longEncodeT T s) = some s :=
+  decode_spell (spell_longEncodeT hT s) _ (Nat.le_refl _)
+
+/-- in a short-quoted string the quote itself is never written raw: the text between the quotes does not begin with one -/
+theorem head_shortEncodeT {T : List (Char × Str)} (hT : wfTab T = true) (hq : escWith T '"' ≠ ['"']) :
+    ∀ s : Str, (shortEncodeT T s).head? ≠ some '"'
+  | [] => by simp [shortEncodeT]
+  | c :: s => by
+    have hk := tokOk_escWith hT c
+    simp only [shortEncodeT, List.flatMap_cons]
+    cases hw : escWith T c with
+    | nil => rw [hw] at hk; simp [tokOk] at hk
+    | cons a r =>
+      simp only [List.cons_append, List.head?_cons, ne_eq, Option.some.injEq]
+      intro ha
+      subst ha
+      rw [hw] at hk
+      match r, hk, hw with
+      | [], hk, hw =>
+        simp only [tokOk, Bool.and_eq_true, decide_eq_true_eq] at hk
+        obtain ⟨rfl, _⟩ := hk
+        exact hq hw
+      | [k], hk, _ => simp [tokOk] at hk
+      | _ :: _ :: _, hk, _ => simp [tokOk] at hk
 
 end RV.C07
